@@ -686,6 +686,7 @@ struct Emitter {
       const FunctionDecl *pd = nullptr;
       if (pat && pat->hasBody(pd) && pd) o += ",\"dl\":" + loc(pd->getLocation());
     }
+    if (FD->getFirstDecl() != FD) o += ",\"fl\":" + loc(FD->getFirstDecl()->getLocation());
     o += ",\"params\":[";
     for (unsigned i = 0; i < FD->getNumParams(); ++i) {
       const ParmVarDecl *p = FD->getParamDecl(i);
